@@ -582,8 +582,8 @@ def withVersion (d : Dep) (version : Option (List Char)) : PyM Dep :=
     pure { d with constraint := c }
   | none => pure d
 
-def createFromPep508L (text : List Char) : PyM Dep := do
-  let req ← Req.parseL (stripComment text)
+/-- `create_from_pep_508` after `parse_requirement` -/
+def fromReq (req : Requirement) : PyM Dep := do
   let name := req.name
   if isUrlName name then .error .unmodelled      -- unreachable: a NAME token has no ':'
   else
@@ -625,6 +625,10 @@ def createFromPep508L (text : List Char) : PyM Dep := do
   match req.marker with
   | some m => dep.setMarker m
   | none => pure dep
+
+def createFromPep508L (text : List Char) : PyM Dep := do
+  let req ← Req.parseL (stripComment text)
+  fromReq req
 
 def createFromPep508 (text : String) : PyM Dep := createFromPep508L text.toList
 
